@@ -105,16 +105,15 @@ Proof. exact remove_true_removed. Qed.
 Print Assumptions C06_remove_true_removed.
 
 (* AddTmp: once the function has returned true or a deadline goroutine exists, and the
-   Remove calls these queue have all run (s_pend = 0), the handler is gone for good;
-   close(done) runs at most once, only after the removal, and exactly when one of those
-   Remove calls was the one that removed the handler.  (In the code as it is, done stays
-   open when a registrar's Remove / Clear / ClearAll removed the handler first.) *)
+   finish calls these queue have all done their Remove (s_pend = 0), the handler is gone for
+   good — whoever removed it — and done has been closed exactly once, or a finish is between
+   its Remove and its once.Do(close(done)).  close(done) runs at most once, and only after a
+   finish removed the handler. *)
 Theorem C06_tmp_removed : forall sc, wf_sc sc -> forall tr s h,
   exec sc (init sc) tr = Some s -> hd_tmp (sc_decl sc h) = true ->
   (0 < cnt (is_end_true h) tr + deadlines sc tr h)%nat -> s_pend s h = 0%nat ->
   In h (added sc tr) /\ ~ In h (reg_of sc tr) /\
-  (rm_ok sc tr h <= 1)%nat /\
-  (s_toclose s h = 0%nat -> cnt (is_close h) tr = rm_ok sc tr h).
+  (cnt (is_close h) tr = 1%nat \/ (cnt (is_close h) tr = 0%nat /\ (0 < s_toclose s h)%nat)).
 Proof. exact tmp_removed. Qed.
 Print Assumptions C06_tmp_removed.
 
